@@ -62,7 +62,7 @@ def _nest(flat, shape):
 
 
 def gen_attrs(rng, density=0.5, mutable=False, names=None):
-    names = names or ["units", "long_name", "scale", "tag", "note"]
+    names = names or ["units", "long_name", "scale", "tag", "note", "name"]
     out = {}
     for nm in names:
         if rng.random() < density * 0.6:
@@ -73,7 +73,7 @@ def gen_attrs(rng, density=0.5, mutable=False, names=None):
 def gen_attr_value(rng, mutable=False):
     k = rng.randint(0, 5 if mutable else 3)
     if k == 0:
-        return rng.choice(["m", "kg", "none", "deg"])
+        return rng.choice(["m", "kg", "none", "deg", "1850", "2.0", "true"])
     if k == 1:
         return rng.randint(-3, 40)
     if k == 2:
